@@ -1,10 +1,11 @@
 /* type environment + environment stubs for unit wheel_schedule (the locked part of TimingWheel::schedule / reschedule) */
 typedef struct TimerEntry { uint64_t id; void *callback; int64_t deadline; struct TimerEntry *prev, *next; size_t wheelLevel; size_t bucketIndex; bool thenReschedule; } TimerEntry;
 typedef struct { int unused; } iora_idmap;
-typedef struct { int64_t _tickDuration; iora_idmap _entryMap; int64_t _lastAdvanceTime; } TimingWheel;
+typedef struct { int64_t _tickDuration; iora_idmap _entryMap; int64_t _lastAdvanceTime; bool _accepting; uint64_t _nextId; } TimingWheel;
 size_t G_wheel_locks; int64_t G_clock_floor; TimerEntry *G_alloc_entry; uint64_t G_map_key; TimerEntry *G_map_slot;
 size_t G_ins_calls; TimerEntry *G_ins_e; int64_t G_ins_delay;
 static inline int64_t iora_clock_now(void) { int64_t t = nondet_i64(); IORA_ASSUME(t >= G_clock_floor && t <= ((int64_t)1 << 61)); return t; }   /* steady clock: monotone */
-static inline TimerEntry **iora_idmap_at(iora_idmap *m, uint64_t id) { (void)m; G_map_key = id; return &G_map_slot; }
+size_t G_map_writes;
+static inline TimerEntry **iora_idmap_at(iora_idmap *m, uint64_t id) { (void)m; G_map_key = id; G_map_writes++; return &G_map_slot; }
 #define TimingWheel_allocEntry(self) (G_alloc_entry)
 static inline void TimingWheel_insertEntry(TimingWheel *self, TimerEntry *entry, int64_t delay) { (void)self; G_ins_calls++; G_ins_e = entry; G_ins_delay = delay; }
